@@ -47,7 +47,7 @@ META = {
   "p_strtod: only strings of <= 4 (quick) / 5 (thorough) characters; decimal exponents above 22 and mantissas above 4 digits are not compared; "
   "accuracy claim is a relative error <= 1e-14, not correct rounding",
   "heap string blocks are MAX_LINE+1 bytes regardless of the requested size: an overrun that stays inside the block is not seen (the stack buffers are exact)",
-  "boolean getter: only the documented spellings true/TRUE/1/false/FALSE/0 are compared; list getter: items separated by spaces (tabs not compared)",
+  "boolean getter: only the documented spellings true/TRUE/1/false/FALSE/0 are compared; list getter: value strings of <= 7 (quick) / 9 (thorough) characters",
   "allocation failure inside the parser (C18), leaks (C20)",
  ],
 }
@@ -159,9 +159,9 @@ def queries(tier):
     VL = 5 if quick else 8
     GF = ["p_ini_file_parameter_int", "p_ini_file_parameter_boolean", "p_ini_file_parameter_list", "p_ini_file_parameter_double",
           "p_ini_file_parameter_string", "pp_ini_file_find_parameter", "p_ini_file_parse", "p_strtod", "p_strchomp", "p_strdup"]
-    MG = max(M, VL + 2)
     for mode in ("INT", "BOOL", "LIST", "DOUBLE"):
-        vl = {"BOOL": 5, "DOUBLE": 2}.get(mode, VL)
+        vl = {"BOOL": 5, "DOUBLE": 2, "LIST": 6 if quick else 9}.get(mode, VL)   # LIST: "{a b }" needs 6 characters, "{ a b }" 7
+        MG = max(M, vl + 2)      # the line 'k=' + value must fit the line buffer
         qs.append(mk("getter_" + mode.lower(), "harness/C16_getters.c", MG, ["GET_" + mode, "VLEN=%d" % vl], 3, 2, max(3, vl // 2 + 2),
                      {"file": "'[s]\\nk=' + value of 1..%d bytes" % vl, "value": "any text the grammar stores verbatim"}, funcs=GF, timeout=T))
     SU = ["src/pstring.c", "src/pmem.c"]
